@@ -66,7 +66,8 @@ RULE = ('place cases: memory layout (slot hashes, reference counts, capacities, 
         '_amend_segments).  Observation of a history step now includes _segment_lengths and the fake instrument\'s table of '
         'defined segment lengths (:TRAC:DEF, download_segment_lengths, TRAC:DEL).  Round 5: every decision the driver obtains '
         'inside a history is recorded together with the driver\'s own arrays at call time and judged by the Python oracle of '
-        'the four clauses (not by Coq); short_in_hole_family: 54 histories x both drivers in which a shorter segment sits in '
+        'the four clauses; round 6: the recorded calls are part of the Coq case (CHistD: Spec.decision_okb on the driver\'s own '
+        'arrays + comparison with the model of the decision function, the feature copy on tie-free inputs); short_in_hole_family: 54 histories x both drivers in which a shorter segment sits in '
         'a larger hole and an append lies exactly on / 1 below / slack below / slack+1 below the refusal threshold; 4 '
         'tight-total histories free-without-cleanup-then-another-name-appends.  Non-trivial = place '
         'case with a slot, an unknown segment and a decision or Fragmentation refusal; history that reaches >= 3 slots '
@@ -89,7 +90,8 @@ TRUSTED = [
     'numpy integer dtype arithmetic (uint16/32/64, int32/64, python ints, mixed) equals integer arithmetic on the generated '
     'sizes: exercised by the dtype families against the Z model on both refusal thresholds, not proved',
     'round 5: the recording wrapper around the driver\'s _find_place_for_segments_in_memory (records the driver\'s arrays, calls '
-    '/repo\'s method, records the returned arrays); these in-history decisions are judged by the Python oracle only',
+    '/repo\'s method, records the returned arrays); since round 6 the recorded calls are judged by Coq (CHistD) and by the '
+    'Python oracle',
     'fake instrument, length table: `:TRAC:DEF n, len` sets the defined length of slot n, download_segment_lengths(list) sets '
     'slot k+1 := list[k] for all k, TRAC:DEL n drops it; what the real instrument does with a slot defined shorter than its '
     'capacity (addresses) is not modelled',
@@ -738,11 +740,26 @@ def _g_step(st):
                _zl(st['lens']), devlen, glist(_zl, st['plens'])))
 
 
+def _g_call(dc, feature):
+    if 'ret' in dc:
+        w, a, i = dc['ret']
+        impl = '(IRet %s %s %s)' % (_zl(w), glist(gbool, a), _zl(i))
+    else:
+        impl = '(IRefuse None)'            # the call raised: which RuntimeError is visible in the step's ho_err
+    return ('{| pc_feature := %s; pc_hashes := %s; pc_refs := %s; pc_caps := %s; pc_new_hashes := %s; pc_new_lens := %s; '
+            'pc_impl := %s |}' % (gbool(feature), _zl(dc['hashes']), _zl(dc['refs']), _zl(dc['caps']), _zl(dc['new_hashes']),
+                                  _zl(dc['new_lens']), impl))
+
+
 def to_coq(case, obs):
     if 'crash' in obs or 'hang' in obs:
         return 'CCrash'
     if case['kind'] == 'hist':
-        return '(CHist %s %s %s)' % (gZ(case['total']), glist(_g_op, case['ops']), glist(_g_step, obs['steps']))
+        # round 6: every placement call made inside the history (driver's own arrays at call time + what it returned) is
+        # part of the Coq case: judged by Spec.decision_okb and compared with the model of the decision function
+        calls = [dc for st in obs['steps'] for dc in st.get('decisions', ())]
+        return '(CHistD %s %s %s %s)' % (gZ(case['total']), glist(_g_op, case['ops']), glist(_g_step, obs['steps']),
+                                         glist(lambda dc: _g_call(dc, case.get('driver') == 'feature'), calls))
     if case['kind'] == 'prim':
         return c19_prims.to_coq(case, obs)
     if 'ret' in obs:
@@ -1135,8 +1152,12 @@ MANIFEST = {
                   'instrument, and per numpy primitive against numpy.',
     'level_note': 'Clause map in notes/C19.md.  Every clause is PROVED about hand-written Gallina models and TESTED on the implementation; none is proved of the Python code itself.  '
                   'The capacity theorem counts slot capacities only (not the 16 points of spacing per segment); the '
-                  'clause-3 check of the decisions taken inside histories is a theorem about the model (C19_history_decisions) '
-                  'and a Python-oracle test on the real drivers.  '
+                  'decisions taken inside histories: theorem about the model (C19_history_decisions), and on the real drivers '
+                  'every recorded call is judged by Spec.decision_okb inside Coq (round 6, CHistD) and by the Python oracle.  '
+                  'Round 6: C19_check_accepts_model - the history checker run on the real drivers (obs_safe after every '
+                  'operation + capacities fit) accepts the observation of every state of the modelled driver over every history '
+                  '(each conjunct of the test follows from the proved invariants; hypotheses: hash determines length, lengths '
+                  '>= 0, total >= 192); this is a statement about the checker and the model, not about the Python drivers.  '
                   'The history theorems are about a hand-written model of the driver bookkeeping; both driver files need '
                   'tabor_control, so the model is tied to them only by running the real classes against a fake instrument '
                   'with sampling replaced by stand-ins.  The copy of the placement inside feature_awg/tabor.py sorts '
